@@ -4,6 +4,7 @@ import DS.Driver.ErrFmtD
 import DS.Driver.StrLitD
 import DS.Driver.JsonD
 import DS.Driver.DetailD
+import DS.Driver.VMD
 open DS.Driver
 
 def dispatch (line : String) : String :=
@@ -17,6 +18,7 @@ def dispatch (line : String) : String :=
     else if t == "strscan" || t == "strescape" then strlitLine toks
     else if t == "jsondecm" || t == "jsonmapm" then jsonLine toks
     else if t == "detail" then detailLine toks
+    else if t == "vmexec" then vmLine toks
     else "bad-op"
 
 partial def loop (hin : IO.FS.Stream) (hout : IO.FS.Stream) : IO Unit := do
